@@ -21,10 +21,10 @@ RULE = (
     "monotonicity is re-checked on the recorded table. Variant cells repeat the gate with other message texts ('', newline, "
     "two lines) and inside an indentation scope: a closed gate lets nothing through, an open gate exactly what the un-gated "
     "call writes. Pair cells keep two I/O objects and a section alive with different verbosity / quiet settings and write the "
-    "same flag word to each in turn: every output is gated by its own settings. non-trivial = cell with flags not in "
+    "same flag word to each in turn: every output is gated by its own settings. Histories: random sequences (3-14 steps) of set_verbosity / set_quiet on any object and writes (unique id per message, random flag word) through an I/O object, its standard and error outputs (gated separately), 1-3 live sections of the standard output, a section of the error output and a section I/O: an id arrives in its own stream at the time of the call iff that output's gate is open, never in the other stream, and a suppressed id never appears later (sections re-print recorded content when a sibling changes). non-trivial = cell with flags not in "
     "(None,0) or quiet; distinct by cell."
 )
-BOUND = {"quick": "complete table (19168 cells) + 69184 variant cells + 360 pair cells, section depth 1", "thorough": "the same with section depth 1 and 2"}
+BOUND = {"quick": "complete table (19168 cells) + 69184 variant cells + 360 pair cells + 3000 histories, section depth 1", "thorough": "the same with section depth 1 and 2, 320000 histories"}
 ASSUMPTIONS = [
     "lowest(flags) = VERBOSE if bit 1, else VERY_VERBOSE if bit 2, else DEBUG if bit 4, else NORMAL; flags None = 0",
     "a method that writes nothing when un-gated in a configuration (e.g. clear() on a plain section) is not a writing method there",
@@ -248,17 +248,128 @@ def run_pairs(sh, lab, found):
                         sh.violate("gate", case, "a new section (verbosity 0, not quiet) wrote %r for flags %r" % (so1.fetch()[:30], fl))
 
 
+def run_histories(sh, lab, n, maxlen):
+    """Random histories over one I/O object with separately gated standard / error outputs and several live sections:
+    every message carries a unique id; an id whose gate was closed at the time of the call never appears in any stream,
+    then or later (sections re-print their recorded content when another section changes); an id whose gate was open
+    appears in its own stream at the time of the call."""
+    rng = sh.rng
+    IO_METHODS = {"write": "o", "write_line": "o", "write_raw": "o", "write_line_raw": "o", "error": "e", "error_line": "e", "error_raw": "e", "error_line_raw": "e"}
+    OUT_METHODS = ("write", "write_line", "write_raw", "write_line_raw")
+    for h in range(n):
+        fk = rng.choice(FORMATTERS)
+        kind = rng.choice(["io", "bufferedio", "consoleio"])
+        io, _, (so, se), _ = lab.make(kind, fk)
+        objs = {"io": io, "out": io.output, "err": io.error_output}
+        stream_of = {"out": "o", "err": "e"}
+        for i in range(rng.randint(1, 3)):
+            objs["sec-o%d" % i] = io.output.section()
+            stream_of["sec-o%d" % i] = "o"
+        if rng.random() < 0.5:
+            objs["sec-e0"] = io.error_output.section()
+            stream_of["sec-e0"] = "e"
+        if rng.random() < 0.3:
+            objs["secio"] = io.section()  # an IO whose outputs are sections of io's outputs
+        gates = {}  # name -> (verbosity, quiet) of each Output-like object, as set through the public setters
+
+        def settings(name):
+            o = objs[name]
+            return o.verbosity, o.is_quiet()
+
+        steps = []
+        closed_ids, seen = [], {"o": "", "e": ""}
+        ok = True
+        for step in range(rng.randint(3, maxlen)):
+            r = rng.random()
+            name = rng.choice(sorted(objs))
+            if r < 0.3:
+                v, q = rng.choice(VERBOSITIES), rng.random() < 0.3
+                target = objs[name]
+                # setting the gate of 'io' / 'secio' sets both of its outputs (that is what the setters document)
+                if rng.random() < 0.5:
+                    target.set_verbosity(v)
+                    steps.append([name, "set_verbosity", v])
+                else:
+                    target.set_quiet(q)
+                    steps.append([name, "set_quiet", q])
+                continue
+            mid = "<%d.%d>" % (h, step)
+            ident = "ID%dx%dZ" % (h, step)
+            fl = rng.choice(FLAGS)
+            if name in ("io", "secio"):
+                meth = rng.choice(sorted(IO_METHODS))
+                which = IO_METHODS[meth]
+                gate_obj = objs[name].output if which == "o" else objs[name].error_output
+            else:
+                which = stream_of[name]
+                gate_obj = objs[name]
+                meth = rng.choice(OUT_METHODS + (("overwrite", "clear") if name.startswith("sec") else ()))
+            if meth in ("overwrite", "clear"):
+                fl = None  # these take no flag word
+            v, q = gate_obj.verbosity, gate_obj.is_quiet()
+            is_open = (not q) and v >= lowest(fl)
+            steps.append([name, meth, ident, fl, "open" if is_open else "closed"])
+            record = {"kind": "history", "io": kind, "formatter": fk, "objects": sorted(objs), "steps": steps}
+            try:
+                if meth == "clear":
+                    objs[name].clear(rng.choice([None, 1, 2]))
+                elif meth == "overwrite":
+                    objs[name].overwrite(ident)
+                else:
+                    getattr(objs[name], meth)(ident + ("" if "line" in meth else "\n"), fl)
+            except Exception as e:
+                sh.violate("cell-raises", record, "step %d %s.%s raised %r" % (step, name, meth, e))
+                ok = False
+                break
+            sh.count("history_calls")
+            now = {"o": so.fetch(), "e": se.fetch()}
+            if meth != "clear":
+                arrived = ident in now[which][len(seen[which]):]
+                if arrived != is_open:
+                    sh.violate("gate", record, "step %d: %s.%s(flags=%r) with that output at verbosity %d quiet=%s: arrived=%s, expected %s" % (
+                        step, name, meth, fl, v, q, arrived, is_open))
+                    ok = False
+                    break
+                if not is_open:
+                    closed_ids.append(ident)
+            else:
+                if not is_open and now[which] != seen[which]:
+                    sh.violate("gate", record, "step %d: %s.clear(flags=%r) with that output at verbosity %d quiet=%s wrote %r" % (
+                        step, name, fl, v, q, now[which][len(seen[which]):][:40]))
+                    ok = False
+                    break
+            other = "e" if which == "o" else "o"
+            if now[other] != seen[other]:
+                sh.violate("gate", record, "step %d: %s.%s wrote %r to the other stream" % (step, name, meth, now[other][len(seen[other]):][:40]))
+                ok = False
+                break
+            leaked = [i for i in closed_ids if i in now["o"] or i in now["e"]]
+            if leaked:
+                sh.violate("gate", record, "step %d (%s.%s): text suppressed earlier reached the stream afterwards: %r" % (step, name, meth, leaked[:3]))
+                ok = False
+                break
+            seen = now
+        sh.case(("history", kind, fk, len(objs), tuple(tuple(x[:2]) for x in steps)), len(closed_ids) > 0)
+        sh.count("histories")
+        if h < 1 and ok:
+            sh.sample({"kind": "history", "steps": steps[:12]})
+
+
 def plan(tier, seed):
     groups = [list(KINDS[i::4]) for i in range(4)]
     specs = [{"depths": [1], "kinds": g, "pairs": i == 0} for i, g in enumerate(groups)]
     if tier != "quick":
         specs += [{"depths": [2], "kinds": g, "pairs": False} for g in groups]
+    specs += [{"histories": 1500 if tier == "quick" else 40000, "maxlen": 14} for _ in range(2 if tier == "quick" else 8)]
     return specs
 
 
 def run(sh, spec):
     repo.activate()
     lab = Lab()
+    if "histories" in spec:
+        run_histories(sh, lab, spec["histories"], spec["maxlen"])
+        return
     found, unprobed = discover(lab, sh)
     sh.note("writing_methods", sorted("%s/%s/%s" % k for k in found))
     sh.note("unprobed", unprobed)
@@ -330,6 +441,8 @@ def finalize(tier, merged):
     shards = 1 if tier == "quick" else 1.3
     if c.get("writing_entry_points", 0) < 150 * shards:
         inc.append("reflection found only %d writing entry points" % c.get("writing_entry_points", 0))
+    if c.get("history_calls", 0) < 1000:
+        inc.append("too few history calls observed: %r" % c.get("history_calls"))
     if not c.get("cells_arrived") or not c.get("cells_suppressed"):
         inc.append("table is degenerate: %r" % (c,))
     notes = merged["notes"][0] if merged["notes"] else {}
@@ -339,6 +452,9 @@ def finalize(tier, merged):
 def replay(sh, case):
     repo.activate()
     lab = Lab()
+    if case.get("kind") in ("history", "pair"):
+        sh.inconclusive_because("history / pair replay: rerun the check with the same VERIF_SEED (the record lists the steps)")
+        return
     v, q, fl = case["verbosity"], case["quiet"], case["flags"]
     arrived, text = run_cell(lab, case["kind"], case["formatter"], case["method"], case.get("has_flags", fl is not None), v, q, fl, case.get("depth", 1))
     want = (not q) and v >= lowest(fl)
